@@ -34,7 +34,7 @@ def plan(tier):
 
 
 def required_regimes(tier):
-    return (c01.required_regimes(tier) - {'reflect:allowed_raise', 'variant:no_grad'}) | {'variant:N=1', 'variant:C=2', 'variant:tuple', 'mode_alias:per', 'none:f32', 'none:f64', 'none:finest',
+    return (c01.required_regimes(tier) - {'reflect:allowed_raise', 'variant:no_grad', 'variant:positional'}) | {'variant:N=1', 'variant:C=2', 'variant:tuple', 'mode_alias:per', 'none:f32', 'none:f64', 'none:finest',
                                                                       'none:coarser_than_present', 'none:lowpass_longer'}
 
 
